@@ -31,7 +31,7 @@ Theorem C07_nth_prime_large :
 Proof. exact nth_prime_large. Qed.
 Print Assumptions C07_nth_prime_large.
 
-(** the same with every source of primes taken from the model kernel (Properties_C04: C04_erat_model_spec): the count
+(** the same with every source of primes taken from the model kernel (Properties_C04: C04_erat_self_spec): the count
     and the forward / backward walks are lists produced by the kernel model; no hypothesis about the sieve is left.
     (The walks are taken from the kernel's list, not from a run of the iterator model.) *)
 From PS Require Import Proofs.KernelInstP.
